@@ -142,6 +142,7 @@ def run(tier):
             m = re.search(r'SUMMARY: ThreadSanitizer: (.*)', out)
             what = m.group(1) if m else out[-300:]
             what = re.sub(r':\d+(:\d+)?', '', what)
+            what = re.sub(r'\(\w+\+0x[0-9a-f]+\)|\(BuildId: ?[0-9a-f]+\)', '', what)      # image offsets / build ids are not part of a stable key
             chk.violation('tsan:' + re.sub(r'\s+', '_', what)[:120], {'free': True, 'prog': prog, 'iters': it},
                           'ThreadSanitizer (free-running, %s): %s\n%s' % (prog, what, out[:1800]))
     chk.part('free_running_tsan', evaluations=nfree, programs=len(FREE[tier]))
